@@ -354,6 +354,10 @@ func (e *ExpressionAtom) Evaluate(dataContext IDataContext, memory *WorkingMemor
 		if e.FunctionCall.FunctionName == "Append" {
 			// Append is the one built-in that changes the fact it is called on: forget what was read from the array
 			memory.Reset(e.ExpressionAtom.GrlText)
+			if receiver := e.ExpressionAtom.Variable; receiver != nil && receiver.Variable != nil {
+				// and what was read from it through another spelling (F.Lists[F.I] for F.Lists[0])
+				memory.ResetAliases(receiver, containerSize(receiver.Variable.ValueNode))
+			}
 		}
 		if retVal.IsValid() {
 			e.Value = retVal
